@@ -22,7 +22,7 @@ PID = "C06"
 LEVEL = "exploration"
 CASE_TIMEOUT = 40
 RULE = (
-    "enumerated: a same-event race family (flow p queues start/activate/await of b, an action or a send while its parent q finishes/aborts/returns on the same "
+    "enumerated: activated flows without any waiting statement (must run exactly once; 16 programs); a same-event race family (flow p queues start/activate/await of b, an action or a send while its parent q finishes/aborts/returns on the same "
     "event; both advancing orders; b pre-activated or not; p and q started or activated; 640 programs x 2 histories incl. idle time); generated: "
     "program from the co2 grammar (hierarchies up to depth 4 through start/await/activate, when/or when, await groups, abort/return, "
     "actions with references); history of 1-30 items (events, guided 'hit' events, Started/Finished of the k-th running action - so "
@@ -31,7 +31,7 @@ RULE = (
 )
 ASSUMPTIONS = [
     "activators of X are approximated statically: a running flow whose body contains `activate X` (reference counts are not observable)",
-    "every helper flow starts with a waiting statement, so the 'finishes without ever waiting' exception never applies to generated activations",
+    "every generated helper flow starts with a waiting statement; the 'finishes without ever waiting' exception is covered by the enumerated nowait family only",
     "actions are identified by the action_uid of their Start event; Finished events are only ever sent for started actions",
 ]
 WALL = {"quick": 170, "thorough": 1500}
@@ -66,7 +66,29 @@ def _race_text(x, p_specific, exit_stmt, main_activates_b, start_p, start_q):
     return "\n".join(lines)
 
 
+NOWAIT_BODIES = {
+    "send": ["send OnceOut()"],
+    "assign-send": ["$k = 1", "send OnceOut()"],
+    "action": ['start UtteranceBotAction(script="once")', "send OnceOut()"],
+    "if-send": ["$k = 1", "if $k == 1", "  send OnceOut()"],
+}
+
+
+def _nowait_cases():
+    """An activated flow that finishes without ever waiting runs once and stays activated (statement, second sentence)."""
+    for name, body in NOWAIT_BODIES.items():
+        for twice in (False, True):
+            for other in (False, True):
+                lines = ["flow once"] + ["  " + b for b in body] + [""]
+                lines += ["flow keeper2", "  activate once", "  match StopKeeper2()", ""]
+                lines += ["flow main", "  activate once"] + (["  activate once"] if twice else []) + (["  start keeper2"] if other else [])
+                lines += ["  match Ev0()", "  send MainOut()", "  match Never()", ""]
+                hist = [["raw", "Ev1", None], ["raw", "Ev0", None], ["raw", "StopKeeper2", None], ["age"], ["raw", "Ev0", None], ["raw", "Ev1", None]]
+                yield {"leg": "nowait", "text": "\n".join(lines), "hist": hist, "choices": [], "body": name}
+
+
 def enumerate_cases(tier):
+    yield from _nowait_cases()
     hists = [
         [["raw", "E", 1], ["raw", "Eb", None], ["raw", "StopKeeper", None], ["raw", "Eb", None], ["raw", "E", 1], ["raw", "Eb", None]],
         [["raw", "E", 1], ["age"], ["raw", "Eb", None], ["raw", "Other", None], ["raw", "StopKeeper", None], ["raw", "Eb", None], ["raw", "E", 1]],
@@ -194,7 +216,33 @@ def _check_activation_liveness(cur, ledger, confirmed, text, where):
             raise Violation("activated-flow-not-restarted", f"{where}: flow {a['flow_id']} activated {fid} and is still running, but no instance of {fid} is listening\n{text}")
 
 
+def _nowait_prop(case):
+    text = case["text"]
+    try:
+        s = smh.Session(text, case["choices"])
+    except Exception as e:
+        raise Violation("exception-at-start:" + type(e).__name__, f"{e!r}"[:300] + "\n" + text)
+    events = list(s.start_events)
+    for i, item in enumerate(case["hist"]):
+        if item[0] == "age":
+            smh.Clock.virtual += 6.0
+            continue
+        ev = {"type": item[1]}
+        try:
+            events += smh.feed(s.state, ev)
+        except Exception as e:
+            raise Violation("exception-escaped:" + type(e).__name__, f"event #{i} {ev}: {e!r}"[:300] + "\n" + text)
+    n = sum(1 for e in events if e["type"] == "OnceOut")
+    if n != 1:
+        raise Violation("nowait-activated-flow-ran-%s" % ("never" if n == 0 else "again"), f"activated flow without any waiting statement emitted its marker {n} times over the history (expected exactly once)\n{text}")
+    if sum(1 for e in events if e["type"] == "MainOut") != 1:
+        raise Violation("nowait-activator-disturbed", f"main did not continue normally after activating a flow that finishes immediately\n{text}")
+    return ok(nt=True, labels=["nowait-family", "body-" + case["body"]], view={"program": text})
+
+
 def prop(case):
+    if case.get("leg") == "nowait":
+        return _nowait_prop(case)
     if case.get("leg") == "race":
         text = case["text"]
         activators = {k: set(v) for k, v in case["activators"].items()}
